@@ -64,13 +64,51 @@ def _group_of(t: Term):
     return None
 
 
+class _Match:
+    """one application of a regular expression to the text: re.fullmatch(pattern, text) or COMPILED.fullmatch(text) with COMPILED = re.compile(pattern) at module level"""
+
+    def __init__(self, name, pattern: Term, result: Term, where):
+        self.d = {"name": name, "args": (pattern,), "result": result}
+        self.where = where
+
+
+def _compiled_pattern(prog, modname: str, name: str):
+    """the constant pattern of a module-level `name = re.compile(<constant>)` (no flags, bound once, never written by a function)"""
+    import ast as _ast
+
+    m = prog.module(modname)
+    defs = [n for n in m.tree.body if isinstance(n, (_ast.Assign, _ast.AnnAssign)) and any(isinstance(t, _ast.Name) and t.id == name for t in (n.targets if isinstance(n, _ast.Assign) else [n.target]))]
+    if len(defs) != 1 or m.global_writers.get(name):
+        return None
+    v = defs[0].value
+    if not (isinstance(v, _ast.Call) and isinstance(v.func, _ast.Attribute) and v.func.attr == "compile" and isinstance(v.func.value, _ast.Name) and v.func.value.id == "re" and len(v.args) == 1 and not v.keywords):
+        return None
+    try:
+        pat = prog.fold(m, v.args[0])
+    except Exception:
+        return None
+    return pat if isinstance(pat, str) else None
+
+
+def _match_events(prog, res):
+    out = []
+    for e in res.events:
+        if e.kind == "extcall" and e.d["name"] in ("re.match", "re.fullmatch", "re.search"):
+            out.append(_Match(e.d["name"], e.d["args"][0], e.d["result"], e.where))
+        elif e.kind == "mcall" and e.d["name"] in ("match", "fullmatch", "search") and unsnap(e.d["recv"]).op == "global":
+            pat = _compiled_pattern(prog, *unsnap(e.d["recv"]).args[:2])
+            if pat is not None:
+                out.append(_Match("re." + e.d["name"], C(pat), e.d["result"], e.where))
+    return out
+
+
 def correspondence_rules(prog, chk, pid):
     P = lambda s: "%s.%s" % (pid, s)
     fi_s, exs, ress, fmts = printers(prog)
     fi_p, exp, resp = parser(prog)
     where_s = "%s:%d" % (fi_s.file, fi_s.lineno)
     where_p = "%s:%d" % (fi_p.file, fi_p.lineno)
-    matches = [e for e in resp.events if e.kind == "extcall" and e.d["name"] in ("re.match", "re.fullmatch", "re.search")]
+    matches = _match_events(prog, resp)
     news = [e for e in resp.events if e.kind == "new" and e.d["cls"].name == "ConfigId"]
     if len(matches) != 2 or len(news) != 2 or len(fmts) != 2:
         chk.fail(P("two-text-forms"), fi_p.qualname, "two patterns / two printers", where_p, "expected two regular expressions, two constructions and two format calls (found %d/%d/%d)" % (len(matches), len(news), len(fmts)))
@@ -285,7 +323,8 @@ def naming_lookup_rules(prog, chk, pid):
     P = lambda s: "%s.%s" % (pid, s)
     for name, err, ver_key, name_key in (("create_from_prj_settings", "MissingProjectSettingsNameError", (0x620, 0x07), (0x620, 0x06)), ("create_from_dev_settings", "MissingDeviceSettingsNameError", (0x620, 0x04), (0x620, 0x03))):
         fi = prog.method(CID + ".ConfigId", name)
-        ex = Exec(prog, policy=lambda e, f, d: False)
+        # module-level / private helpers of configid (an extracted "read one numeric value" step, say) are interpreted as part of the constructor
+        ex = Exec(prog, policy=lambda e, f, d: f.module.name == CID and (f.cls is None or f.name.startswith("_")) and not f.name.startswith("__") and d < 3)
         res = ex.run(fi)
         where = "%s:%d" % (fi.file, fi.lineno)
         subs = [e for e in res.events if e.kind == "subscript" and unsnap(e.d["base"]).op == "param"]
